@@ -162,7 +162,7 @@ fn gen_medium(rng: &mut Rng) -> Medium {
         nums: if rng.chance(1, 2) { NumDelivery::Typed } else { NumDelivery::Widened },
         newtype: if rng.chance(1, 2) { NewtypeMode::Transparent } else { NewtypeMode::Wrapped },
         human_readable: rng.chance(1, 2),
-        size_hint: rng.chance(1, 2),
+        size_hint: [SizeHint::None, SizeHint::Exact, SizeHint::Lower][rng.usize_below(3)],
     }
 }
 
@@ -321,7 +321,7 @@ pub fn sweep_plans(reg: &[TypeEntry]) -> Vec<Plan> {
                     key_form: [KeyForm::Str, KeyForm::Borrowed, KeyForm::String][fi],
                     nums: if newtype == NewtypeMode::Wrapped { NumDelivery::Widened } else { NumDelivery::Typed },
                     human_readable: fi != 1,
-                    size_hint: fi == 1,
+                    size_hint: [SizeHint::None, SizeHint::Exact, SizeHint::Lower][fi],
                 };
                 let base = Plan { ty: e.name.clone(), gen: gen.clone(), patch: None, medium, wfaults: vec![], rfaults: vec![], retry: false };
                 let p = &e.probes[probe_index(&medium)];
@@ -352,8 +352,8 @@ pub fn sweep_plans(reg: &[TypeEntry]) -> Vec<Plan> {
         // clause (c): every arrangement of every subset of the three fields, with and without an
         // unknown entry at every position, through every key form, on both keyed framings
         for framing in [Framing::KeyedSelfDelim, Framing::KeyedLenPrefixed] {
-            for key_form in [KeyForm::Str, KeyForm::Borrowed, KeyForm::String] {
-                let medium = Medium { framing, key_form, ..Medium::DEFAULT };
+            for (ki, key_form) in [KeyForm::Str, KeyForm::Borrowed, KeyForm::String].into_iter().enumerate() {
+                let medium = Medium { framing, key_form, size_hint: [SizeHint::Lower, SizeHint::None, SizeHint::Exact][ki], ..Medium::DEFAULT };
                 let base = Plan { ty: e.name.clone(), gen: gen.clone(), patch: None, medium, wfaults: vec![], rfaults: vec![], retry: false };
                 let p = &e.probes[probe_index(&medium)];
                 let n = p.records.first().map(|r| r.1.len()).unwrap_or(0);
@@ -736,65 +736,73 @@ pub fn sweep_jplans(reg: &[TypeEntry]) -> Vec<JPlan> {
     out
 }
 
+/// Candidates one shrinking step away from `cur` (byte lane), simplest first.
+pub fn shrink_candidates_j(cur: &JPlan, reg: &[TypeEntry]) -> Vec<JPlan> {
+    let mut cands: Vec<JPlan> = Vec::new();
+    let simple = match reg.iter().find(|e| e.name == cur.ty) {
+        Some(e) => simple_gen(&e.gen_kinds),
+        None => return cands,
+    };
+    for i in 0..cur.rfaults.len() {
+        let mut q = cur.clone();
+        q.rfaults.remove(i);
+        cands.push(q);
+    }
+    macro_rules! reset {
+        ($f:ident, $v:expr) => {
+            if cur.$f != $v {
+                let mut q = cur.clone();
+                q.$f = $v;
+                cands.push(q);
+            }
+        };
+    }
+    reset!(retry, false);
+    reset!(patch, None);
+    reset!(w_err, None);
+    reset!(trunc_at, None);
+    reset!(r_err_at, None);
+    reset!(flip, None);
+    reset!(pretty, false);
+    reset!(w_chunk, 0);
+    reset!(w_eintr_every, 0);
+    reset!(r_chunk, 0);
+    reset!(r_eintr_every, 0);
+    reset!(escape_keys, false);
+    reset!(ws, 0);
+    reset!(reader, JReader::Reader);
+    if let Some(f) = cur.w_err {
+        if f.kind == WKind::Permanent {
+            let mut q = cur.clone();
+            q.w_err = Some(WFault { step: f.step, kind: WKind::Transient });
+            cands.push(q);
+        }
+    }
+    if cur.gen != simple {
+        let mut q = cur.clone();
+        q.gen = simple.clone();
+        cands.push(q);
+        for i in 0..cur.gen.len().min(simple.len()) {
+            if cur.gen[i] != simple[i] {
+                let mut q = cur.clone();
+                q.gen[i] = simple[i];
+                cands.push(q);
+            }
+        }
+    }
+    cands
+}
+
 pub fn shrink_j(p: &JPlan, assert_id: &str, reg: &[TypeEntry]) -> (JPlan, u32) {
     let e = match reg.iter().find(|e| e.name == p.ty) {
         Some(e) => e,
         None => return (p.clone(), 0),
     };
-    let simple = simple_gen(&e.gen_kinds);
     let mut cur = p.clone();
     let mut steps = 0;
     let mut budget = 2000;
     'outer: loop {
-        let mut cands: Vec<JPlan> = Vec::new();
-        for i in 0..cur.rfaults.len() {
-            let mut q = cur.clone();
-            q.rfaults.remove(i);
-            cands.push(q);
-        }
-        macro_rules! reset {
-            ($f:ident, $v:expr) => {
-                if cur.$f != $v {
-                    let mut q = cur.clone();
-                    q.$f = $v;
-                    cands.push(q);
-                }
-            };
-        }
-        reset!(retry, false);
-        reset!(patch, None);
-        reset!(w_err, None);
-        reset!(trunc_at, None);
-        reset!(r_err_at, None);
-        reset!(flip, None);
-        reset!(pretty, false);
-        reset!(w_chunk, 0);
-        reset!(w_eintr_every, 0);
-        reset!(r_chunk, 0);
-        reset!(r_eintr_every, 0);
-        reset!(escape_keys, false);
-        reset!(ws, 0);
-        reset!(reader, JReader::Reader);
-        if let Some(f) = cur.w_err {
-            if f.kind == WKind::Permanent {
-                let mut q = cur.clone();
-                q.w_err = Some(WFault { step: f.step, kind: WKind::Transient });
-                cands.push(q);
-            }
-        }
-        if cur.gen != simple {
-            let mut q = cur.clone();
-            q.gen = simple.clone();
-            cands.push(q);
-            for i in 0..cur.gen.len().min(simple.len()) {
-                if cur.gen[i] != simple[i] {
-                    let mut q = cur.clone();
-                    q.gen[i] = simple[i];
-                    cands.push(q);
-                }
-            }
-        }
-        for c in cands {
+        for c in shrink_candidates_j(&cur, reg) {
             if budget == 0 {
                 break 'outer;
             }
